@@ -59,11 +59,13 @@ def run_oracle(ctx, stream, ops):
     lines = ctx.read_lines(ops)
     sl = case_slices(lines)
     found = {}
-    for i, v in enumerate(verdicts):
-        if v.startswith("FAIL") and i < len(sl):
-            clause = v.split()[1]
-            if clause not in found:
-                found[clause] = (clause, v, lines[sl[i][0]:sl[i][1]])
+    for i, line in enumerate(verdicts):
+        if line.startswith("FAIL") and i < len(sl):
+            # one entry per distinct clause of the case ("FAIL c1 ... ;; FAIL c2 ...")
+            for v in line.split(" ;; "):
+                clause = v.split()[1]
+                if clause not in found:
+                    found[clause] = (clause, v, lines[sl[i][0]:sl[i][1]])
     ctx.count("oracle.%s.cases" % stream, len(verdicts))
     ctx.count("oracle.%s.fail" % stream, sum(1 for v in verdicts if v.startswith("FAIL")))
     return list(found.values())
@@ -89,8 +91,10 @@ def oracle(ctx, stream, case_lines, rep):
     known = {k.get("fingerprint") for k in ctx.known if k.get("status") == "known"}
     for n, ops in enumerate(cands):
         fails = run_oracle(ctx, stream, ops)
-        if fails and n > 0:
-            # searching everything generated: an already known finding does not explain this mismatch
+        if fails and (n > 0 or not stream.startswith("known-")):
+            # outside the witness streams an already known finding does not explain a mismatch (its class is
+            # reported as KNOWN-FINDING, the search goes on); the oracle classifies a failure as known only
+            # when the finding's deviation reproduces exactly what the real code did
             report(ctx, stream, [f for f in fails if f[0] in known], rep)
             fails = [f for f in fails if f[0] not in known]
         if fails:
